@@ -69,6 +69,10 @@ DtText(d, ms, off) ==
        \o (IF f # 0 THEN <<cDot>> \o PadNat(f, 3) ELSE <<>>)
        \o <<IF off < 0 THEN cMinus ELSE cPlus>> \o PadNat(ao \div 60, 2) \o <<cColon>> \o PadNat(ao % 60, 2)
 
+\* the local-time conversion behind the ISO text is specified away from the ends of the calendar
+\* (first and last year: the host's time-zone conversion may not exist there)
+DtTextDefined(v) == v.d >= DaysBeforeYear(2) /\ v.d < DaysBeforeYear(9999)
+
 (***************************** compact JSON (canonical text) *****************************)
 HexDigit(n) == IF n < 10 THEN cZero + n ELSE 97 + n - 10
 Hex4(n) == <<HexDigit(n \div 4096), HexDigit((n \div 256) % 16), HexDigit((n \div 16) % 16), HexDigit(n % 16)>>
@@ -107,7 +111,7 @@ JsonText(v, heap, off) ==
       [] v.t = "bool"   -> OK(IF v.v THEN S_true ELSE S_false)
       [] v.t = "num"    -> IF v.f = "x" THEN NoText ELSE NumText(v)
       [] v.t = "str"    -> OK(JsonString(v.v))
-      [] v.t = "dt"     -> OK(JsonString(DtText(v.d, v.ms, off)))
+      [] v.t = "dt"     -> IF DtTextDefined(v) THEN OK(JsonString(DtText(v.d, v.ms, off))) ELSE NoText
       [] v.t = "fn"     -> OK(JsonString(S_function))
       [] v.t = "array"  -> LET r == JsonElems(Elems(v, heap), 1, heap, off) IN
                            IF r.ok THEN OK(<<cLBracket>> \o r.s \o <<cRBracket>>) ELSE NoText
@@ -121,7 +125,7 @@ ToText(v, heap, off) ==
       [] v.t = "str"   -> OK(v.v)
       [] v.t = "bool"  -> OK(IF v.v THEN S_true ELSE S_false)
       [] v.t = "num"   -> NumText(v)
-      [] v.t = "dt"    -> OK(DtText(v.d, v.ms, off))
+      [] v.t = "dt"    -> IF DtTextDefined(v) THEN OK(DtText(v.d, v.ms, off)) ELSE NoText
       [] v.t \in {"array", "object"} -> JsonText(v, heap, off)
       [] v.t = "fn"    -> OK(S_function)
       [] v.t = "regex" -> OK(S_regex)
